@@ -49,7 +49,7 @@ def mutations(repo: Repo, fi: FuncInfo):
 
 def lock_order_edges(repo: Repo, locks: LockSets):
     edges = {}
-    for fi in repo.funcs.values():
+    for fi in repo.scan_funcs():
         for (lid, w) in lock_regions(repo, fi):
             held = locks.held(fi, w)
             for h in held:
@@ -63,8 +63,8 @@ def check_lock_order(ctx: Ctx, locks: LockSets, oid: str) -> None:
     with ctx.obligation(oid, "lock-order-acyclic") as ob:
         edges = lock_order_edges(repo, locks)
         # also acquisitions through callees: caller holds L1 and calls f whose body acquires L2
-        acquires: dict[str, set[str]] = {}
-        for fi in repo.funcs.values():
+        acquires: dict[str, set[str]] = {q: set() for q in repo.funcs}
+        for fi in repo.scan_funcs():
             acquires[fi.qualname] = {lid for (lid, _w) in lock_regions(repo, fi)}
         g = repo.callgraph()
         trans: dict[str, set[str]] = {q: set(v) for q, v in acquires.items()}
@@ -77,7 +77,7 @@ def check_lock_order(ctx: Ctx, locks: LockSets, oid: str) -> None:
                     if add:
                         trans[q] |= add
                         changed = True
-        for fi in repo.funcs.values():
+        for fi in repo.scan_funcs():
             for call in repo.calls_in(fi):
                 held = locks.held(fi, call)
                 if not held:
